@@ -29,8 +29,21 @@ UBX_ERRORS = tuple(
     and issubclass(getattr(pyubx2.exceptions, n), Exception)
 )
 
-logging.getLogger("pyubx2.ubxreader").addHandler(logging.NullHandler())
-logging.getLogger("pyubx2.ubxreader").propagate = False
+
+
+class _LogCapture(logging.Handler):
+    """Collects every log record emitted anywhere (root logger) - used when no error handler is given."""
+
+    def __init__(self):
+        super().__init__(level=0)
+        self.records = []
+
+    def emit(self, record):
+        self.records.append((record.name, record.levelname, record.getMessage()))
+
+
+LOGCAP = _LogCapture()
+logging.getLogger().addHandler(LOGCAP)
 
 
 class Horizon(BaseException):
@@ -74,7 +87,7 @@ def sig(parsed):
 
 
 class Run:
-    __slots__ = ("items", "errors", "raised", "tell", "calls", "size", "horizon", "events")
+    __slots__ = ("items", "errors", "raised", "tell", "calls", "size", "horizon", "events", "logrecs")
 
     def __init__(self):
         self.items = []
